@@ -90,7 +90,55 @@ pub trait ExBuf {
     /// documented panic: no byte remaining
     fn get_u8(&mut self) -> (r: u8)
         requires old(self).rem().len() >= 1
-        ensures r == old(self).rem()[0], final(self).rem() == old(self).rem().skip(1);
+        ensures r == old(self).rem()[0], final(self).rem() == old(self).rem().skip(1);    // the fixed-width getters of Buf panic (documented) when fewer bytes remain than the width of the type
+    fn get_u16(&mut self) -> (r: u16)
+        requires old(self).rem().len() >= 2
+        ensures old(self).rem().take(2) == be16(r as nat), final(self).rem() == old(self).rem().skip(2);
+    fn get_u16_le(&mut self) -> (r: u16)
+        requires old(self).rem().len() >= 2
+        ensures old(self).rem().take(2) == le16(r as nat), final(self).rem() == old(self).rem().skip(2);
+    fn get_i16(&mut self) -> (r: i16)
+        requires old(self).rem().len() >= 2
+        ensures old(self).rem().take(2) == be16(tc(r as int, 16)), final(self).rem() == old(self).rem().skip(2);
+    fn get_i16_le(&mut self) -> (r: i16)
+        requires old(self).rem().len() >= 2
+        ensures old(self).rem().take(2) == le16(tc(r as int, 16)), final(self).rem() == old(self).rem().skip(2);
+    fn get_u32(&mut self) -> (r: u32)
+        requires old(self).rem().len() >= 4
+        ensures old(self).rem().take(4) == be32(r as nat), final(self).rem() == old(self).rem().skip(4);
+    fn get_u32_le(&mut self) -> (r: u32)
+        requires old(self).rem().len() >= 4
+        ensures old(self).rem().take(4) == le32(r as nat), final(self).rem() == old(self).rem().skip(4);
+    fn get_i32(&mut self) -> (r: i32)
+        requires old(self).rem().len() >= 4
+        ensures old(self).rem().take(4) == be32(tc(r as int, 32)), final(self).rem() == old(self).rem().skip(4);
+    fn get_i32_le(&mut self) -> (r: i32)
+        requires old(self).rem().len() >= 4
+        ensures old(self).rem().take(4) == le32(tc(r as int, 32)), final(self).rem() == old(self).rem().skip(4);
+    fn get_u64(&mut self) -> (r: u64)
+        requires old(self).rem().len() >= 8
+        ensures old(self).rem().take(8) == be64(r as nat), final(self).rem() == old(self).rem().skip(8);
+    fn get_u64_le(&mut self) -> (r: u64)
+        requires old(self).rem().len() >= 8
+        ensures old(self).rem().take(8) == le64(r as nat), final(self).rem() == old(self).rem().skip(8);
+    fn get_i64(&mut self) -> (r: i64)
+        requires old(self).rem().len() >= 8
+        ensures old(self).rem().take(8) == be64(tc(r as int, 64)), final(self).rem() == old(self).rem().skip(8);
+    fn get_i64_le(&mut self) -> (r: i64)
+        requires old(self).rem().len() >= 8
+        ensures old(self).rem().take(8) == le64(tc(r as int, 64)), final(self).rem() == old(self).rem().skip(8);
+    fn get_f32(&mut self) -> (r: f32)
+        requires old(self).rem().len() >= 4
+        ensures old(self).rem().take(4) == be32(f32_bits(r) as nat), final(self).rem() == old(self).rem().skip(4);
+    fn get_f32_le(&mut self) -> (r: f32)
+        requires old(self).rem().len() >= 4
+        ensures old(self).rem().take(4) == le32(f32_bits(r) as nat), final(self).rem() == old(self).rem().skip(4);
+    fn get_f64(&mut self) -> (r: f64)
+        requires old(self).rem().len() >= 8
+        ensures old(self).rem().take(8) == be64(f64_bits(r) as nat), final(self).rem() == old(self).rem().skip(8);
+    fn get_f64_le(&mut self) -> (r: f64)
+        requires old(self).rem().len() >= 8
+        ensures old(self).rem().take(8) == le64(f64_bits(r) as nat), final(self).rem() == old(self).rem().skip(8);
 }
 
 // `self.remaining()` with `self: &mut B` resolves to the blanket `impl<T: Buf> Buf for &mut T`
